@@ -85,9 +85,18 @@ class PQModel:
 
     def change(self, item, score):
         self.log.append(("change", item, score))
+        self.c["pq_ops"] = self.c.get("pq_ops", 0) + 1
+        if item not in self.m:
+            # changing the score of an item that is not queued: refusing (an exception) or ignoring it are both fine, but the
+            # queue must afterwards still report exactly the queued items with their scores (checked by the lookups that follow)
+            try:
+                self.q.change_score(item, score)
+            except (KeyError, IndexError, ValueError):
+                pass
+            self.c["pq_change_absent_item"] = self.c.get("pq_change_absent_item", 0) + 1
+            return
         self.q.change_score(item, score)
         self.m[item] = score
-        self.c["pq_ops"] = self.c.get("pq_ops", 0) + 1
 
     def pop(self):
         self.log.append(("pop",))
@@ -144,6 +153,8 @@ def _pq_exhaustive(PQ, domain, first, depth, counters, keys):
                     out.append(("change", it, s))
                 else:
                     out.append(("push", s, it))
+            if it not in model_items:
+                out.append(("change", it, domain[0]))  # an item that is not queued
         out.append(("pop",))
         return out
 
@@ -210,6 +221,12 @@ def _pq_random(PQ, rng, counters):
                 mo.push(s, it)
                 order.append(it)
                 ops.append(("push", s, it))
+        elif r < 0.75 and free and rng.random() < 0.06:
+            it = rng.choice(free)  # change the score of an item that is not queued
+            s = score()
+            mo.change(it, s)
+            ops.append(("change", it, s))
+            mo.check_lookups(universe)
         elif r < 0.75:
             queued = [i for i in order if i in mo.m]
             pick = rng.random()
